@@ -57,7 +57,7 @@ class C06(CheckBase):
             toolsim.tool_path("san", t)
 
     def n_plans(self, tier):
-        return 4000 if tier == "quick" else 60000
+        return 12000 if tier == "quick" else 150000
 
     def time_budget(self, tier):
         return 170 if tier == "quick" else 1700
@@ -147,11 +147,12 @@ class C06(CheckBase):
 
 
 def open_remark_at_eof(text):
-    """true if the bytes end inside a remark: an embedded remark (* ... that is still open, or a tail remark -- ... without its newline"""
+    """true if the bytes end inside a token the lexer scans with look-ahead: an embedded remark (* ... that is still open, a tail
+    remark -- ... without its newline, or a string literal '...' / "..." without its closing quote"""
     depth = 0
     i = 0
     n = len(text)
-    while i < n - 1:
+    while i < n:
         two = text[i:i + 2]
         if two == "(*":
             depth += 1
@@ -159,20 +160,33 @@ def open_remark_at_eof(text):
         elif two == "*)" and depth > 0:
             depth -= 1
             i += 2
-        elif depth == 0 and two == "--":
+        elif depth > 0:
+            i += 1
+        elif two == "--":
             j = text.find("\n", i)
             if j < 0:
-                return True        # the bytes end inside a tail remark
+                return True
             i = j + 1
-        elif depth == 0 and text[i] == "'":
+        elif text[i] == "'":
             j = i + 1
+            closed = False
             while j < n and text[j] != "\n":
                 if text[j] == "'":
                     if j + 1 < n and text[j + 1] == "'":
                         j += 2
                         continue
+                    closed = True
                     break
                 j += 1
+            if not closed and j >= n:
+                return True
+            i = j + 1
+        elif text[i] == '"':
+            j = i + 1
+            while j < n and text[j] not in '"\n':
+                j += 1
+            if j >= n:
+                return True
             i = j + 1
         else:
             i += 1
